@@ -57,7 +57,8 @@ impl Streams {
         Self::with_flow_limits(server, peer_bidi, peer_uni, local_bidi, local_uni, 65536, 4096)
     }
 
-    /// as `new`, with the peer's initial MAX_DATA and initial MAX_STREAM_DATA (all stream kinds)
+    /// as `new`, with the peer's initial MAX_DATA and its initial MAX_STREAM_DATA for bidirectional
+    /// streams opened by us (`initial_max_stream_data_bidi_remote`); the other kinds get larger limits
     pub fn with_flow_limits(
         server: bool,
         peer_bidi: u64,
@@ -72,11 +73,14 @@ impl Streams {
             max_data_bidi_remote: VarInt::from_u32(4096),
             max_data_uni: VarInt::from_u32(4096),
         };
+        // the peer's limits differ per stream kind (from the peer's point of view): streams the peer
+        // opens itself get more room than the ones we open, so a mixed-up perspective is visible
         let w = VarInt::new(peer_stream_window).unwrap();
+        let more = |d: u32| VarInt::new(peer_stream_window.saturating_add(d as u64).min((1 << 62) - 1)).unwrap();
         let peer_stream_limits = InitialStreamLimits {
-            max_data_bidi_local: w,
+            max_data_bidi_local: more(1000),
             max_data_bidi_remote: w,
-            max_data_uni: w,
+            max_data_uni: more(2000),
         };
         let local = InitialFlowControlLimits {
             stream_limits,
